@@ -1,22 +1,3 @@
-// ---- Borrow::borrow: the borrowed value is a function of the argument ----------------------------------
-#[verifier::external_trait_specification]
-pub trait ExBorrow<Borrowed: ?Sized> {
-    type ExternalTraitSpecificationFor: core::borrow::Borrow<Borrowed>;
-    fn borrow(&self) -> (r: &Borrowed)
-        ensures r == borrowed_ref::<Self, Borrowed>(self);
-}
-pub mod borrow_ax {
-    use super::*;
-    pub uninterp spec fn borrowed_ref<T: ?Sized, B: ?Sized>(x: &T) -> &B;
-    // std blanket impls: `impl<T> Borrow<T> for T` and `impl<T> Borrow<T> for &T` are the identity
-    pub broadcast axiom fn borrow_self<T>(x: &T)
-        ensures #[trigger] borrowed_ref::<T, T>(x) == x;
-    pub broadcast axiom fn borrow_ref<T>(x: &&T)
-        ensures #[trigger] borrowed_ref::<&T, T>(x) == *x;
-}
-pub use borrow_ax::*;
-broadcast use {borrow_self, borrow_ref};
-
 // ---- plain data + crypto leaves ---------------------------------------------------------------------------
 pub type SeqNum = u32;
 
